@@ -357,6 +357,11 @@ def _perm_slots(states, variant):
 def alphabet(S, A, unit, sectors, lean=False):
     u = unit if unit < S else (S // 2) // 512 * 512
     P = sorted({0, 1, A - 1, A, A + 1, u - 1, u, max(0, S - A - 1), S - 1, S, S + 1})
+    if not lean and unit < S and S // unit <= 6:
+        # the start of every unit of the (5-unit) image and a point inside it: histories that leave the cursor mid-unit and
+        # continue at the start of whichever unit is stored next to it
+        for k in range(1, S // unit + 1):
+            P = sorted(set(P) | {k * unit, min(S, k * unit + 700)})
     if lean:
         P = sorted({0, A - 1, u, S - 1, S + 1})
     ops = [("seek", p, 0) for p in P]
